@@ -131,10 +131,25 @@ fn round_trip(rec: &str, v: &real::Real, rest: &[u8]) -> Result<RoundTrip, (Stri
     if d.consumed != w.len() {
         return Err(("consumed".into(), format!("{} bytes written, {} consumed ({} trailing bytes given)", w.len(), d.consumed, rest.len())))
     }
-    match real::same(v, d.value.as_ref().unwrap()) {
-        Ok(exact) => Ok(RoundTrip { subsec: !exact }),
-        Err(e) => Err((format!("field/{}", e.split(':').next().unwrap_or("?").split('(').next().unwrap_or("?")), e)),
+    let rt = match real::same(v, d.value.as_ref().unwrap()) {
+        Ok(exact) => RoundTrip { subsec: !exact },
+        Err(e) => return Err((format!("field/{}", e.split(':').next().unwrap_or("?").split('(').next().unwrap_or("?")), e)),
+    };
+    // the same through readers that hand out the bytes in pieces (Read::read may return less than asked for)
+    for pieces in [&[1usize][..], &[5, 2][..], &[31, 1, 64][..]] {
+        if w.len() > 4_000_000 && pieces.len() == 1 { continue }
+        let d = real::read_in_pieces(rec, &inp, pieces);
+        if d.outcome != "value" {
+            return Err(("short-reads/read-error".into(), format!("reading back from a reader that returns {pieces:?} bytes per call failed: {} {}", d.outcome, d.detail)))
+        }
+        if d.consumed != w.len() {
+            return Err(("short-reads/consumed".into(), format!("{} bytes written, {} consumed from a reader that returns {pieces:?} bytes per call", w.len(), d.consumed)))
+        }
+        if let Err(e) = real::same(v, d.value.as_ref().unwrap()) {
+            return Err(("short-reads/field".into(), format!("read back from a reader that returns {pieces:?} bytes per call: {e}")))
+        }
     }
+    Ok(rt)
 }
 
 fn c28(rep: &mut Report, lines: &[CLine], args: &Args) {
